@@ -1,6 +1,8 @@
 import SvtVerif.Model.Packetize
 import Driver.Util
-/- `svtmodel packetize`: one stream per input line
+import Driver.MiniGop
+/- `svtmodel packetize`: one stream per input line (a line starting with `MG` is a pre-assignment-buffer stream and is handled by
+   Driver/MiniGop.lean, so that the C03 check needs no subcommand of its own)
 
      D term n  d_0 disp_0 pts_0 shown_0 hse_0 alt_0 priv_0 meta_0   d_1 disp_1 …   (n groups of 8 integers)
 
@@ -46,6 +48,7 @@ private def validN (fs : List Frame) : Int :=
   | _ => -1
 
 def packetizeMain : IO Unit := forLines fun line =>
+  if (words line).head? == some "MG" then miniGopLine line else
   match ints (words line) with
   | some (d :: term :: n :: rest) =>
     if d ≤ 0 ∨ n < 0 then IO.println "bad-op" else
